@@ -25,4 +25,4 @@ Definition run_cfg (t0 t1 : forest) (c : cfg11) : sx :=
 
 Definition run11 (c : case11) : sx :=
   let '(t0, t1, cfgs) := c in
-  L [ L (map (run_cfg t0 t1) cfgs); sx_forest t0; sx_forest t1 ].
+  L [ L (map (run_cfg t0 t1) cfgs); sx_forest t0; sx_forest t1; sx_bool (dom_b t0 t1) ].
